@@ -34,6 +34,10 @@ pub struct Variant {
 }
 
 pub struct Space<'a> {
+    /// every explored prefix history is additionally extended by every `suffix` op, and that by every `tail` op
+    /// (used when one family of operations has a large parameter space of its own, C15)
+    pub suffix: Vec<Op>,
+    pub tail: Vec<Op>,
     pub variants: Vec<Variant>,
     pub prop: &'a str,
     pub alphabet: Vec<Op>,
@@ -153,6 +157,11 @@ pub fn explore(space: &Space<'_>) -> Report {
                 });
             }
             let _ = (ci, pi);
+            if !space.suffix.is_empty() {
+                let mut local = HashSet::new();
+                suffix_sweep(space, entry, p, &[], ci, pi, &counters, &violations, &stop, &samples, &mut local);
+                states.lock().unwrap().extend(local);
+            }
         }
     }
 
@@ -253,6 +262,8 @@ pub fn explore(space: &Space<'_>) -> Report {
                                     if v.len() >= space.max_violations {
                                         stop.store(true, Ordering::Relaxed);
                                     }
+                                } else if !space.suffix.is_empty() {
+                                    suffix_sweep(space, entry, params, &hist, ci, pi, &counters, &violations, &stop, &samples, &mut local_states);
                                 } else if !space.variants.is_empty() {
                                     lockstep(space, entry, params, &hist, &out, &counters, &violations, &stop);
                                 } else if space.fault != FaultMode::None && out.calls > 0 {
@@ -338,6 +349,68 @@ pub fn explore(space: &Space<'_>) -> Report {
         configs: space.configs.len(),
         params: space.params.len(),
         alphabet: n,
+    }
+}
+
+#[allow(clippy::too_many_arguments)]
+fn suffix_sweep(
+    space: &Space<'_>,
+    entry: &ConfigEntry,
+    params: &RunParams,
+    prefix: &[Op],
+    ci: usize,
+    pi: usize,
+    counters: &Counters,
+    violations: &Mutex<Vec<ViolRec>>,
+    stop: &AtomicBool,
+    samples: &Mutex<Vec<String>>,
+    local_states: &mut HashSet<u64>,
+) {
+    let mut hist: Vec<Op> = Vec::with_capacity(prefix.len() + 2);
+    let mut run = |hist: &[Op]| -> bool {
+        let out = run_history(entry, hist, params, space.groups, true, space.probes);
+        if out.disabled_at.is_some() || out.ctor_unavailable {
+            return false;
+        }
+        bump(&counters.histories);
+        if out.cover.chunk_switch {
+            bump(&counters.chunk_switch);
+        }
+        if (space.nontrivial)(&out.cover, hist) {
+            bump(&counters.nontrivial);
+        }
+        local_states.insert(out.hash ^ ((ci as u64) << 48) ^ ((pi as u64) << 56));
+        let n = counters.histories.load(Ordering::Relaxed);
+        if n % 500_009 == 11 {
+            let mut s = samples.lock().unwrap();
+            if s.len() < 24 {
+                s.push(format!("cfg={} {} history=[{}]", entry.cfg.name(), params.describe(), history_to_string(hist)));
+            }
+        }
+        if let Some((_, step, msg)) = out.viol {
+            let mut v = violations.lock().unwrap();
+            v.push(ViolRec { cfg: entry.cfg.name(), params: params.describe(), history: history_to_string(hist), len: hist.len(), step, msg, replay_args: replay_args(entry, params, hist) });
+            if v.len() >= space.max_violations {
+                stop.store(true, Ordering::Relaxed);
+            }
+            return false;
+        }
+        true
+    };
+    for s in &space.suffix {
+        if stop.load(Ordering::Relaxed) {
+            return;
+        }
+        hist.clear();
+        hist.extend_from_slice(prefix);
+        hist.push(*s);
+        if run(&hist) {
+            for t in &space.tail {
+                hist.truncate(prefix.len() + 1);
+                hist.push(*t);
+                run(&hist);
+            }
+        }
     }
 }
 
